@@ -456,7 +456,7 @@ def Ctx.getSubReader (c : Ctx) (t : Topic) (a : Actor) : Ctx :=
     let del := if reader ∧ !banned then s.delId else 0
     let online := (t.pud s.user).online > 0 ∧ presencer
     let (r, v) := if reader ∧ !banned then (s.readId, s.recvId) else (0, 0)
-    let priv := match s.priv with | some p => s!":priv={p}" | none => ""
+    let priv := match s.priv with | some p => s!":priv={showTok (some p)}" | none => ""
     s!"{s.user}:{showMode s.want}/{showMode s.given}/{showMode sm}:r{r}:v{v}:d{del}{if online then ":on" else ""}{priv}")
   c.emit a.sid s!"meta {tn} sub[{" ".intercalate (entries.mergeSort (· ≤ ·))}]"
 
@@ -490,7 +490,7 @@ def Ctx.getSubOfflineReader (c : Ctx) (a : Actor) (tn : TName) : Ctx :=
     if s.deleted then c.emit a.sid s!"meta {tn} sub[-:_/_/_:r0:v0:d0:deleted]" else
     let sm := s.want &&& s.given
     let (r, v, d) := if isReader sm ∧ isJoiner sm then (s.readId, s.recvId, s.delId) else (0, 0, 0)
-    let priv := match s.priv with | some p => s!":priv={p}" | none => ""
+    let priv := match s.priv with | some p => s!":priv={showTok (some p)}" | none => ""
     c.emit a.sid s!"meta {tn} sub[{s.user}:{acsStr s.want s.given}:r{r}:v{v}:d{d}{priv}]"
 
 def Ctx.opGetC (c : Ctx) (a : Actor) (tn : TName) (viaChn : Bool) (what : String) (since before limit : Int) : Ctx :=
@@ -523,7 +523,10 @@ def Ctx.setSubOfflineReader (c : Ctx) (a : Actor) (tn : TName) (target : Uid) (m
   | none => c.emit a.sid (ctrl 500 tn)
   | some none => c.emit a.sid (ctrl 404 tn)
   | some (some s) =>
-    let privUpd : Option Tok := match priv with | .absent => none | .null => some (some "␡") | .val p => some (some p)
+    let privUpd : Option Tok := match priv with
+      | .absent => none
+      | .null => some (some "␡")
+      | .val p => if isMapTok p then (let (np, ch) := mergeTok s.priv (.val p); if ch then some np else none) else some (some p)
     let r : Except Nat (Option Mode) :=
       if mode = "" then .ok none else
       match unmarshal 0 mode.toList with
